@@ -480,6 +480,233 @@ def Op.writes : Op → Loc → Bool
   | .storeSearchValue s k _, .search sid key => s == sid && k == key
   | _, _ => false
 
+/-! ### a checker for observed histories: "the answers are those of the map specification"
+
+`SpecRun a h` says that the observed history `h` (calls paired with the answers the REAL storage gave) is a run
+of the map specification from the map `a`: every answer is one the map allows (`Spec.answers`) and the map then
+moves as specified for that answer (`Spec.next`).  `checkHistory` decides `SpecRun Spec.empty` (theorem
+`C13_checker`); it keeps the map as finite dicts (a `Store` whose counters are not used) and is what the driver
+evaluates on the answers of `MemoryStorage` and `SharedMemoryStorage`. -/
+
+def Spec.empty : Spec := ⟨fun _ => none, fun _ _ => none⟩
+
+def SpecRun : Spec → List (Op × Out) → Prop
+  | _, [] => True
+  | a, (op, out) :: h => a.answers op out ∧ SpecRun (a.next op out) h
+
+mutual
+/-- structural equality test on values -/
+def Val.beq : Val → Val → Bool
+  | .none, .none => true
+  | .bool a, .bool b => a == b
+  | .int a, .int b => a == b
+  | .num a, .num b => a == b
+  | .str a, .str b => a == b
+  | .list a, .list b => Val.beqList a b
+  | .tuple a, .tuple b => Val.beqList a b
+  | .dict a, .dict b => Val.beqKV a b
+  | _, _ => false
+def Val.beqList : List Val → List Val → Bool
+  | [], [] => true
+  | x :: xs, y :: ys => Val.beq x y && Val.beqList xs ys
+  | _, _ => false
+def Val.beqKV : List (String × Val) → List (String × Val) → Bool
+  | [], [] => true
+  | (k, x) :: xs, (l, y) :: ys => k == l && Val.beq x y && Val.beqKV xs ys
+  | _, _ => false
+end
+
+def optBeq : Option Val → Option Val → Bool
+  | none, none => true
+  | some a, some b => Val.beq a b
+  | _, _ => false
+
+/-- two dicts hold the same record (as maps; the order of the keys does not matter) -/
+def mapEq (a b : List (String × Val)) : Bool := (keys a ++ keys b).all (fun k => optBeq (aget k a) (aget k b))
+
+def sameSet (a b : List String) : Bool := a.all (fun x => b.contains x) && b.all (fun x => a.contains x)
+
+def sameVals (a b : List Val) : Bool := a.all (fun x => b.any (Val.beq x)) && b.all (fun x => a.any (Val.beq x))
+
+def isErr (e : Err) : Out → Bool
+  | .error e' => e' == e
+  | _ => false
+
+def isNoneOut : Out → Bool
+  | .none => true
+  | _ => false
+
+def isVal (v : Val) : Out → Bool
+  | .val v' => Val.beq v' v
+  | _ => false
+
+/-- the job dict of `(sid, pid)` in the finite map -/
+def eJob (e : Store) (sid pid : String) : Option Job := (aget sid e.data).bind (fun S => aget pid S.jobs)
+
+def eJobOf (e : Store) (jid : String) : Option Job :=
+  match parseJobId jid with
+  | some (sid, pid) => eJob e sid pid
+  | none => none
+
+def checkStore (e : Store) (jid : String) (out : Out) : Bool :=
+  match parseJobId jid with
+  | none => isErr .valueError out
+  | some (sid, pid) =>
+    match eJob e sid pid with
+    | none => isErr .keyError out
+    | some _ => isNoneOut out
+
+def notNone (v : Val) : Option Val := if isNone v then none else some v
+
+/-- the value a job contributes to `load_metadata_from_all_jobs(…, key)` -/
+def metaCand (key : String) (j : Job) : Option Val :=
+  match aget "metadata" j with
+  | some (Val.dict m) => (aget key m).bind notNone
+  | _ => none
+
+/-- does the answer `out` to the call `op` agree with the finite map `e` ? -/
+def checkAns (e : Store) : Op → Out → Bool
+  | .createSearch, out =>
+    match out with
+    | .id sid => (aget sid e.data).isNone
+    | _ => false
+  | .createJob sid, out =>
+    match aget sid e.data with
+    | none => isErr .keyError out
+    | some S =>
+      match out with
+      | .id x =>
+        match parseJobId x with
+        | some (s, p) => s == sid && (aget p S.jobs).isNone
+        | none => false
+      | _ => false
+  | .storeJob jid _ _, out => checkStore e jid out
+  | .storeJobIn jid _ _, out => checkStore e jid out
+  | .storeJobOut jid _, out => checkStore e jid out
+  | .storeJobStatus jid _, out => checkStore e jid out
+  | .storeJobMetadata jid _ _, out =>
+    match parseJobId jid with
+    | none => isErr .valueError out
+    | some (sid, pid) =>
+      match eJob e sid pid with
+      | none => isErr .keyError out
+      | some j =>
+        match aget "metadata" j with
+        | none => isErr .keyError out
+        | some (.dict _) => isNoneOut out
+        | some _ => isErr .typeError out
+  | .storeSearchValue sid _ _, out =>
+    match aget sid e.data with
+    | none => isErr .keyError out
+    | some _ => isNoneOut out
+  | .loadAllSearchIds, out =>
+    match out with
+    | .ids l => sameSet l (keys e.data)
+    | _ => false
+  | .loadAllJobIds sid, out =>
+    match aget sid e.data with
+    | none => isErr .keyError out
+    | some S =>
+      match out with
+      | .ids l => sameSet l ((keys S.jobs).map (jobId sid))
+      | _ => false
+  | .loadSearch sid, out =>
+    match aget sid e.data with
+    | none => isErr .keyError out
+    | some S =>
+      match out with
+      | .val (.dict kvs) =>
+        (keys kvs ++ keys S.jobs).all (fun pid =>
+          match aget pid kvs, aget pid S.jobs with
+          | some (.dict kv), some j => mapEq kv j
+          | none, none => true
+          | _, _ => false)
+      | _ => false
+  | .loadJob jid, out =>
+    match parseJobId jid with
+    | none => isErr .valueError out
+    | some (sid, pid) =>
+      match eJob e sid pid with
+      | none => isErr .keyError out
+      | some j =>
+        match out with
+        | .val (.dict kvs) => mapEq kvs j
+        | _ => false
+  | .loadJobStatus jid, out =>
+    match parseJobId jid with
+    | none => isErr .valueError out
+    | some (sid, pid) =>
+      match eJob e sid pid with
+      | none => isErr .keyError out
+      | some j =>
+        match aget "status" j with
+        | none => isErr .keyError out
+        | some v => isVal v out
+  | .loadSearchValue sid key, out =>
+    match aget sid e.data with
+    | none => isErr .keyError out
+    | some S =>
+      if reservedKey key then true
+      else match aget key S.free with
+        | none => isErr .keyError out
+        | some v => isVal v out
+  | .loadOutFromAllJobs sid, out =>
+    match aget sid e.data with
+    | none => isErr .keyError out
+    | some S =>
+      match out with
+      | .vals l => sameVals l (S.jobs.filterMap (fun pj => (aget "out" pj.2).bind notNone))
+      | _ => true
+  | .loadMetadataFromAllJobs sid key, out =>
+    match aget sid e.data with
+    | none => isErr .keyError out
+    | some S =>
+      match out with
+      | .vals l => sameVals l (S.jobs.filterMap (fun pj => metaCand key pj.2))
+      | _ => true
+  | .loadJobs jids, out =>
+    match out with
+    | .val (.dict d) =>
+      (keys d ++ jids).all (fun jid =>
+        match aget jid d with
+        | none => !jids.contains jid
+        | some (.dict kv) => jids.contains jid && (match eJobOf e jid with | some j => mapEq kv j | none => false)
+        | some _ => false)
+    | _ => true
+
+/-- the finite map after a call that answered `out` (mirrors `Spec.next`) -/
+def enext (e : Store) : Op → Out → Store
+  | .createSearch, .id sid => { e with data := aset sid ⟨0, [], []⟩ e.data }
+  | .createJob _, .id jid =>
+    match parseJobId jid with
+    | some (sid, pid) =>
+      match aget sid e.data with
+      | some S => { e with data := aset sid { S with jobs := aset pid newJob S.jobs } e.data }
+      | none => e
+    | none => e
+  | .storeJob jid key v, .none => (storeJob e jid key v).1
+  | .storeJobIn jid args kwargs, .none => (storeJob e jid "in" (.dict [("args", args), ("kwargs", kwargs)])).1
+  | .storeJobOut jid v, .none => (storeJob e jid "out" v).1
+  | .storeJobStatus jid v, .none => (storeJob e jid "status" v).1
+  | .storeJobMetadata jid key v, .none => (storeJobMetadata e jid key v).1
+  | .storeSearchValue sid key v, .none =>
+    match aget sid e.data with
+    | some S => { e with data := aset sid { S with free := aset key v S.free } e.data }
+    | none => e
+  | _, _ => e
+
+def checkHistoryFrom : Store → List (Op × Out) → Bool
+  | _, [] => true
+  | e, (op, out) :: h => checkAns e op out && checkHistoryFrom (enext e op out) h
+
+/-- the verified checker -/
+def checkHistory (h : List (Op × Out)) : Bool := checkHistoryFrom Store.init h
+
+/-- (diagnostics only) index of the first answer the map does not allow -/
+def firstBadAnswer : Store → List (Op × Out) → Nat → Option Nat
+  | _, [], _ => none
+  | e, (op, out) :: h, i => if checkAns e op out then firstBadAnswer (enext e op out) h (i + 1) else some i
+
 /-! ### several clients, atomic method calls -/
 
 /-- clients' remaining programs, the shared store, and what each client has received so far -/
